@@ -57,7 +57,9 @@ type Peer struct {
 	Plans   map[string]RunPlan // by run id; missing = plain work-done
 
 	// observations
-	Started     []string
+	Started []string
+	// OnWorkStart, if set, is called (in the peer's read loop) for every work-start the peer accepts
+	OnWorkStart func(run string)
 	SignalsSeen map[string]int
 	ClientDone  bool
 	ReadErr     error
@@ -131,6 +133,9 @@ func (p *Peer) Run() {
 			}
 			runID := m.RunID
 			p.Started = append(p.Started, runID)
+			if p.OnWorkStart != nil {
+				p.OnWorkStart(runID)
+			}
 			plan := p.Plans[runID]
 			steps.Add(1)
 			mcrt.GoNamed("peer-step-"+runID, func() {
